@@ -56,6 +56,16 @@ def missing(what, loc=None):
     return Inst("anchor-missing|" + what, False, "anchor not found: %s (the rule cannot be evaluated; fail closed)" % what, loc)
 
 
+_REQ = []
+
+
+def required_keys():
+    if not _REQ:
+        p = os.path.join(os.path.dirname(os.path.abspath(__file__)), "required_keys.json")
+        _REQ.append(json.load(open(p)) if os.path.exists(p) else {})
+    return _REQ[0]
+
+
 def run_rules(ctx, prop, tier="quick"):
     """Runs every rule mapped to `prop`. Returns (instances, per_rule_stats)."""
     insts = []
@@ -76,6 +86,14 @@ def run_rules(ctx, prop, tier="quick"):
         n_ok = sum(1 for i in res if i.ok)
         n_bad = sum(1 for i in res if not i.ok)
         extra = []
+        have = {i.key for i in res}
+        if not any(i.key == "rule-crashed" for i in res):
+            for k in required_keys().get(rid, []):
+                if k not in have:
+                    i = Inst("required|" + k, False, "obligation %r of rule %s, generated on the reference tree, was not generated on this tree: the construct it is computed from was removed or is no longer recognised (fail closed)" % (k, rid))
+                    i.rule = rid
+                    extra.append(i)
+                    n_bad += 1
         if len(res) < r.floor:
             i = Inst("floor", False, "rule %s produced %d instances, fewer than the %d confirmed by hand (fail closed)" % (rid, len(res), r.floor))
             i.rule = rid
